@@ -37,6 +37,24 @@ def implies_not_ignore(cond, polarity):
     return False
 
 
+def short_circuit_conds(node):
+    """(test, polarity, False) facts that hold whenever `node` is evaluated because of the expression it sits in: the earlier
+    operands of an enclosing `and` (true) / `or` (false), the test of an enclosing conditional expression"""
+    out = []
+    child = node
+    for p in parents(node):
+        if isinstance(p, ast.BoolOp):
+            k = next((i for i, v in enumerate(p.values) if v is child), None)
+            if k is not None:
+                out += [(v, isinstance(p.op, ast.And), False) for v in p.values[:k]]
+        elif isinstance(p, ast.IfExp) and child is not p.test:
+            out.append((p.test, child is p.body, False))
+        elif isinstance(p, ast.stmt):
+            break
+        child = p
+    return out
+
+
 def excludes_zero(conds, expr_txt):
     """Some governing condition excludes  <expr> == 0."""
     def atoms(cond, pol):
@@ -135,7 +153,7 @@ def rule_implicit(repo, rule, modules):
         else:
             div = node.right if isinstance(node, ast.BinOp) else None
             txt = norm(div)
-            ok = excludes_zero(rec["conds"], txt) or _dominating_zero_raise(fi, node, txt)
+            ok = excludes_zero(list(rec["conds"]) + short_circuit_conds(node), txt) or _dominating_zero_raise(fi, node, txt)
         term = "%s with value-dependent operand `%s`" % (rec["what"], txt)
         if ok:
             rule.ok(where, fi.fq, term, "zero excluded by a governing test / `+ (v == 0)` idiom")
